@@ -826,7 +826,7 @@ func vfC19Fields(v any) string {
 func vfC19ShapeOK(r *vkit.Run) bool {
 	ok := true
 	for _, c := range []struct{ name, got, want string }{
-		{"ConfigSelector", vfC19Fields(ConfigSelector{}), "constraints,strategy,lastDecisionTime,lastMode,clock"},
+		{"ConfigSelector", vfC19Fields(ConfigSelector{}), "constraints,strategy,mu,lastDecisionTime,lastMode,clock"},
 		{"RuleBasedStrategy", vfC19Fields(RuleBasedStrategy{}), "clock"},
 		{"WorkloadDetector", vfC19Fields(WorkloadDetector{}), "windowSize,minSampleSize,capacity,mu,events,head,size,closed,lastFlush,clock"},
 	} {
